@@ -214,37 +214,65 @@ const (
 // seed == nil means all ones. Untracked nodes and tracked nodes not reachable
 // from root through tracked nodes get nil.
 func (p Prog) Grad(vals []*T, root int, seed *T, rule BroadcastRule) []*T {
+	g, _ := p.GradS(vals, root, seed, rule)
+	return g
+}
+
+// GradS also returns, per node, the "tape run on absolute values": the same reverse sweep in which every
+// local Jacobian entry and every contribution is replaced by its absolute value. It bounds the magnitude of
+// the terms that were summed into each gradient element - including terms that cancelled at a node further
+// up and whose rounding residue is carried down - and is the scale against which a small difference must
+// be judged.
+func (p Prog) GradS(vals []*T, root int, seed *T, rule BroadcastRule) (g, scale []*T) {
 	tr := p.TrackedSet()
-	g := make([]*T, len(p))
+	g = make([]*T, len(p))
+	scale = make([]*T, len(p))
 	if !tr[root] {
-		return g
+		return g, scale
 	}
 	if seed == nil {
 		seed = Full(vals[root].Shape, 1)
 	}
 	g[root] = seed.Clone()
+	scale[root] = seed.Map(math.Abs)
 	for i := root; i >= 0; i-- {
 		if g[i] == nil || p[i].Op == "leaf" || p[i].Op == "full" {
 			continue
 		}
 		in := p[i]
 		xs := make([]*T, len(in.In))
+		axs := make([]*T, len(in.In))
 		for k, j := range in.In {
 			xs[k] = vals[j]
+			axs[k] = vals[j].Map(math.Abs)
 		}
 		gs := VJP(in, xs, vals[i], g[i], rule)
+		var ss []*T
+		switch in.Op {
+		case "elmax", "elmin": // the winner may differ on absolute values: both sides get the whole scale
+			ss = []*T{scale[i].Clone(), scale[i].Clone()}
+		case "maxalong", "minalong":
+			ss = []*T{expandAlong(scale[i], xs[0].Shape, in.Dim)}
+		case "varalong", "stdalong", "softmax", "fc", "mse", "bce", "ce", "relu", "leakyrelu", "sigmoid":
+			// rules that are not monotone in |x|: bound by the signed rule applied to the scale, element-wise absolute value
+			ss = VJP(in, xs, vals[i], scale[i], rule)
+		default:
+			ss = VJP(in, axs, vals[i].Map(math.Abs), scale[i], rule)
+		}
 		for k, j := range in.In {
 			if !tr[j] || gs[k] == nil {
 				continue
 			}
 			if g[j] == nil {
 				g[j] = gs[k].Clone()
+				scale[j] = ss[k].Map(math.Abs)
 			} else {
 				for q := range g[j].Data {
 					g[j].Data[q] += gs[k].Data[q]
+					scale[j].Data[q] += math.Abs(ss[k].Data[q])
 				}
 			}
 		}
 	}
-	return g
+	return g, scale
 }
